@@ -108,6 +108,7 @@ class _CfgStats:
 
     def to_json(self):
         d = dict(self.__dict__)
+        d.pop("paths_since_fail", None)
         d["cands"] = [v for v in self.cands.values()]
         d["functions"] = sorted(self.functions)
         return d
@@ -142,7 +143,7 @@ def _observations_agree(E, sym_obs, conc_obs, model):
     return None
 
 
-def _worker(hname, cfgs, opts, tasks, results, widx):
+def _worker(hname, cfgs, opts, tasks, results, widx, stop_flags=None):
     try:
         signal.signal(signal.SIGINT, signal.SIG_IGN)
         hmod = importlib.import_module("harness." + hname)
@@ -166,6 +167,9 @@ def _worker(hname, cfgs, opts, tasks, results, widx):
                 stack = [(prefix, maybe)]
                 n_local = 0
                 while stack:
+                    if stop_flags is not None and stop_flags[ci]:
+                        st.counters["prefixes_cut_after_violation"] = st.counters.get("prefixes_cut_after_violation", 0) + len(stack)
+                        break
                     if t_deadline and time.time() > t_deadline:
                         st.counters["deadline_dropped"] = st.counters.get("deadline_dropped", 0) + len(stack)
                         break
@@ -253,6 +257,10 @@ def _worker(hname, cfgs, opts, tasks, results, widx):
                         })
                     stack.extend(alts)
                     n_local += 1
+                    if st.cands and stop_flags is not None and not cfg.get("expect_fail"):
+                        st.paths_since_fail = getattr(st, "paths_since_fail", 0) + 1
+                        if st.paths_since_fail >= opts["paths_after_violation"]:
+                            stop_flags[ci] = 1
                     # share work when others are idle
                     if len(stack) > 1 and tasks.qsize() < opts["nproc"]:
                         give = stack[: len(stack) // 2]
@@ -341,6 +349,7 @@ def run_harness(hname, tier="quick", seed=0, only=None):
         "validate_first": getattr(hmod, "VALIDATE_FIRST", 2),
         "validate_every": getattr(hmod, "VALIDATE_EVERY", 97),
         "nproc": NPROC,
+        "paths_after_violation": getattr(hmod, "PATHS_AFTER_VIOLATION", 150),
     }
     budget = getattr(hmod, "WALL_BUDGET_S", {}).get(tier)
     if budget:
@@ -350,7 +359,8 @@ def run_harness(hname, tier="quick", seed=0, only=None):
     order = sorted(range(len(cfgs)), key=lambda i: -cfgs[i].get("cost", 1))
     for i in order:
         tasks.put((i, [], False))
-    procs = [mp.Process(target=_worker, args=(hname, cfgs, opts, tasks, results, w), daemon=True) for w in range(NPROC)]
+    stop_flags = mp.Array("b", len(cfgs), lock=False)
+    procs = [mp.Process(target=_worker, args=(hname, cfgs, opts, tasks, results, w, stop_flags), daemon=True) for w in range(NPROC)]
     for p in procs:
         p.start()
     tasks.join()
